@@ -4,7 +4,7 @@ import sys, re, json, os, collections
 log = sys.argv[1]
 res = collections.OrderedDict()
 for line in open(log):
-    m = re.match(r"(C\d\d-[A-F]) (C\d\d) => (.*)", line.strip())
+    m = re.match(r"(C\d\d-[A-H]) (C\d\d) => (.*)", line.strip())
     if not m:
         continue
     seed, prop, out = m.groups()
